@@ -16,15 +16,31 @@ Emit(r) == prog' = Append(prog, r)
 Row(n, ill) == [k |-> IF ill THEN RE({"gt", "ge"}) ELSE RE({"ge", "ge", "ge", "eq"}), v |-> Mat(<<RE(-2..4)>> \o Vec(n, -3, 3))]
 BoxRows(n) == Mat([i \in 1..(2*n) |-> IF i <= n THEN [k |-> "ge", v |-> [j \in 1..(n+1) |-> IF j = i + 1 THEN 1 ELSE 0]]
                                        ELSE [k |-> "ge", v |-> [j \in 1..(n+1) |-> IF j = 1 THEN RE(1..5) ELSE IF j = i - n + 1 THEN -1 ELSE 0]]])
-Ops == {"add_constraint", "add_constraint", "add_constraints", "add_box", "add_dims", "add_ints", "set_obj", "set_mode", "pricing",
+\* "add_nonneg" / "add_bound": a sign restriction x_k >= 0 (resp. a bound -x_k + c >= 0) on ONE variable, mostly the newest one: such rows are not
+\* stored in the tableau but turn the variable into a non-split column, separately for the variables added after a solve
+Ops == {"add_constraint", "add_constraint", "add_constraints", "add_box", "add_dims", "add_dims", "add_nonneg", "add_nonneg", "add_bound", "add_ints", "set_obj", "set_mode", "pricing",
         "solve", "solve", "is_satisfiable", "feasible_point", "optimizing_point", "optimal_value", "evaluate", "copy", "dumpload", "clear"}
+\* one history in three follows the incremental template (flag b of its first record): sign restrictions / bounds / rows and an objective,
+\* a solve, a new dimension, more of the same on the new variable, a new objective, a second solve and the point / value observers
+IncrOp(L) == IF L = 1 THEN RE({"add_nonneg", "add_nonneg", "add_bound", "add_constraint", "add_box", "set_obj"})
+             ELSE IF L = 2 THEN RE({"add_nonneg", "add_bound", "add_constraint", "set_obj", "set_mode"})
+             ELSE IF L = 3 THEN RE({"solve", "solve", "is_satisfiable"})
+             ELSE IF L = 4 THEN "add_dims"
+             ELSE IF L = 5 THEN RE({"add_nonneg", "add_bound", "add_bound", "add_constraint", "add_ints", "set_mode"})
+             ELSE IF L = 6 THEN "set_obj"
+             ELSE IF L = 7 THEN RE({"set_mode", "solve", "add_bound"})
+             ELSE IF L = 8 THEN "solve"
+             ELSE RE({"optimal_value", "optimizing_point", "feasible_point", "solve"})
 Next ==
   /\ Len(prog) < MaxLen
-  /\ \E op \in {IF Len(prog) = 0 THEN "new" ELSE RE(Ops)} : \E ill \in {Ill(Len(prog))} :
+  /\ \E op \in {IF Len(prog) = 0 THEN "new" ELSE IF prog[1].b = 1 /\ (Len(prog) # 4 \/ dim < MaxDim) THEN IncrOp(Len(prog)) ELSE RE(Ops)} : \E ill \in {IF Len(prog) > 0 /\ prog[1].b = 1 THEN FALSE ELSE Ill(Len(prog))} :
      LET n == IF ill /\ RE(1..2) = 1 THEN dim + 1 ELSE dim IN
-     \/ op = "new" /\ \E d0 \in {RE(1..MaxDim)} : Emit([D0 EXCEPT !.op = "new", !.n = d0]) /\ dim' = d0
+     \/ op = "new" /\ \E tp \in {RE(0..2)} : \E d0 \in {IF tp = 1 /\ MaxDim > 1 THEN RE(1..(MaxDim - 1)) ELSE RE(1..MaxDim)} : Emit([D0 EXCEPT !.op = "new", !.n = d0, !.b = tp]) /\ dim' = d0
      \/ op = "add_constraint" /\ \E nn \in {n} : \E r \in {Row(nn, ill)} : Emit([D0 EXCEPT !.op = op, !.n = nn, !.k = r.k, !.v = r.v]) /\ UNCHANGED dim
      \/ op = "add_constraints" /\ \E nn \in {n} : \E cnt \in {RE(1..3)} : Emit([D0 EXCEPT !.op = op, !.n = nn, !.cs = Mat([i \in 1..cnt |-> Row(nn, ill)])]) /\ UNCHANGED dim
+     \/ op \in {"add_nonneg", "add_bound"} /\ dim > 0 /\ \E kk \in {IF RE(1..3) <= 2 THEN dim ELSE RE(1..dim)} : \E c \in {RE(1..6)} :
+          Emit([D0 EXCEPT !.op = "add_constraint", !.n = dim, !.k = "ge",
+                          !.v = [j \in 1..(dim + 1) |-> IF j = kk + 1 THEN (IF op = "add_nonneg" THEN 1 ELSE -1) ELSE IF j = 1 /\ op = "add_bound" THEN c ELSE 0]]) /\ UNCHANGED dim
      \/ op = "add_box" /\ Emit([D0 EXCEPT !.op = "add_constraints", !.n = dim, !.cs = BoxRows(dim)]) /\ UNCHANGED dim
      \/ op = "add_dims" /\ dim < MaxDim /\ Emit([D0 EXCEPT !.op = op, !.b = 1]) /\ dim' = dim + 1
      \/ op = "add_ints" /\ \E S \in {RE(SUBSET (0..(IF ill THEN dim ELSE dim - 1)))} : Emit([D0 EXCEPT !.op = op, !.vs = SetToSortSeq(S, <)]) /\ UNCHANGED dim
